@@ -20,7 +20,11 @@ def all_vfuncs_have_receiver(summ):
 
 ENGINE_B = [{'template': 't_inherit', 'kinds': ['layout_'], 'max_quick': 8, 'max_thorough': 48, 'abi': True},
             {'template': 't_vft', 'kinds': ['layout_'], 'max_quick': 12, 'max_thorough': 64, 'abi': True, 'accept': lambda summ: all_vfuncs_have_receiver(summ)},
-            {'template': 't_impl', 'kinds': ['addrcall_'], 'max_quick': 8, 'max_thorough': 32, 'abi': True}]
+            {'template': 't_impl', 'kinds': ['addrcall_'], 'max_quick': 8, 'max_thorough': 32, 'abi': True},
+            # two functions in one impl block whose default conventions differ (thiscall with a receiver, system without), the first one
+            # internal (`_g0`, no wrapper emitted) or not
+            {'template': 't_implname', 'kinds': ['addrcall_'], 'max_quick': 4, 'max_thorough': 4, 'abi': True,
+             'fixed': [[8, 4096, 8192, 2, 0, 0, 0, 1, 0, 1], [8, 4096, 8192, 2, 0, 0, 0, 0, 2, 1], [8, 4096, 8192, 2, 0, 0, 0, 1, 0, 0], [8, 4096, 8192, 2, 0, 3, 4, 0, 1, 1]]}]
 CC = c05.CC
 EXPLANATION = ('Three templates are executed symbolically: t_impl (impl function), t_vft (vftable block incl. placeholder slots) and '
                't_inherit (the same virtual function seen through derived tables).  The calling-convention attribute ranges over '
@@ -134,5 +138,5 @@ def region_env(a, sl): return {}
 
 
 def describe(template, args):
-    if template == 't_impl': return c05.describe(template, args)
+    if template in ('t_impl', 't_implname'): return c05.describe(template, args)
     return '%s%s' % (template, [int(x) for x in args])
